@@ -161,8 +161,8 @@ class Own:
 
 WEIGHTS = [(NEW, 12), (CLONE, 9), (CURRENT, 5), (ORCURRENT, 3), (DROP, 8), (ENTER, 9), (DROPGUARD, 8), (ENTERED, 6),
            (EXITOWNED, 6), (SCOPEBEGIN, 5), (SCOPEEND, 5), (RECORD, 3), (FOLLOWS, 3), (INSTRUMENT, 7), (POLLBEGIN, 15),
-           (POLLEND, 11), (INTOINNER, 3), (SETDEFAULT, 3), (CLOSESCOPE, 2), (QUERY, 3), (INNERACCESS, 3), (SWAP, 3),
-           (CLONEFUT, 3), (WITHCOLL, 4)]
+           (POLLEND, 11), (INTOINNER, 3), (SETDEFAULT, 3), (CLOSESCOPE, 2), (QUERY, 3), (INNERACCESS, 3), (SWAP, 4),
+           (CLONEFUT, 4), (WITHCOLL, 4)]
 
 
 def gen_program(rng, n_main, threads, colls, malformed):
@@ -578,7 +578,7 @@ def run(ctx):
                           extra_obligations=[("Gen_span.src_shapes = model_shapes (row by row, differing_rows = [])", rows_ok)])
     # ---- cases
     rng = ctx.rng
-    n = 1500 if not ctx.thorough() else 12000
+    n = 1500 if not ctx.thorough() else 20000
     cases = []
     for f in sorted(glob.glob(os.path.join(vlib.VERIF, "corpus", "C03", "*.json"))):
         for line in open(f):
@@ -591,7 +591,7 @@ def run(ctx):
         threads = rng.choice([1, 2, 2, 3]) if not ctx.thorough() else rng.choice([1, 2, 2, 3, 4, 6])
         colls = rng.choice([2, 2, 3])
         malformed = rng.random() < 0.12
-        size = rng.choice([6, 12, 20, 30, 30, 45, 70])
+        size = rng.choice([6, 12, 20, 30, 30, 45, 70] + ([100, 140] if ctx.thorough() else []))
         cases.append({"id": "r%d" % k, "threads": threads, "collectors": colls,
                       "ops": gen_program(rng, size, threads, colls, malformed)})
     if ctx.replay:
